@@ -13,6 +13,7 @@ import (
 	"strconv"
 	"strings"
 	"sync"
+	"sync/atomic"
 	"testing"
 	"time"
 
@@ -60,6 +61,11 @@ func keTarget() *net.UDPAddr {
 	return relay.addr
 }
 
+// keCookies: how many cookies the harness's key-exchange server issues (a server SHOULD send eight; some send more).
+var keCookies atomic.Int32
+
+func init() { keCookies.Store(8) }
+
 func setKETarget(a *net.UDPAddr) {
 	keTargetMu.Lock()
 	keTargetAddr = a
@@ -102,7 +108,7 @@ func TestMain(m *testing.M) {
 			{Type: netlab.RecPort, Body: netlab.U16(uint16(keTarget().Port))},
 		}
 		sc := ntske.ServerCookie{Algo: ntske.AES_SIV_CMAC_256, S2C: s2c, C2S: c2s}
-		for i := 0; i < 8; i++ {
+		for i := 0; i < int(keCookies.Load()); i++ {
 			enc, err := sc.EncryptWithNonce(key.Value, key.ID)
 			if err != nil {
 				return
